@@ -95,6 +95,8 @@ func main() {
 		out["setnonewprivs_error"] = errStr(seccomp.SetNoNewPrivs())
 		out["loadfilter_error"] = errStr(seccomp.LoadFilter(seccomp.Filter{NoNewPrivs: true, Flag: seccomp.FilterFlagTSync, Policy: *native}))
 		out["loadfilter_invalid_policy_error"] = errStr(seccomp.LoadFilter(seccomp.Filter{Policy: seccomp.Policy{DefaultAction: 12345}}))
+		out["loadfilter_plain_error"] = errStr(seccomp.LoadFilter(seccomp.Filter{Policy: *native}))
+		out["supported_after_loads"] = seccomp.Supported() // a history: asked again after the loads
 	}
 	b, _ := json.Marshal(out)
 	os.Stdout.Write(append(b, '\n'))
